@@ -56,7 +56,7 @@ int ogg_page_eos(const ogg_page *og){ return g_eos; }
 static ogg_int64_t g_pagepos; static int g_seekfail; static int g_nopage;
 static int _seek_helper(OggVorbis_File *vf,ogg_int64_t off){ if(g_seekfail) return OV_EREAD; vf->offset=off; return 0; }
 static ogg_int64_t _get_next_page(OggVorbis_File *vf,ogg_page *og,ogg_int64_t boundary){
-  if(g_pages>=1 || g_nopage) return OV_EOF; g_pages++;
+  if(g_pages>=1 || g_nopage) return ND_BOOL()?OV_EOF:OV_EREAD;   /* end of data or a read error: ov_raw_seek treats both as the end of the stream */ g_pages++;
   og->header=env_hdr; og->header_len=27; og->body=env_body; og->body_len=0; vf->offset=g_pagepos+100; return g_pagepos; }
 void harness(void){
   OggVorbis_File vf; memset(&vf,0,sizeof vf); g_vf=&vf; int ds=1; vf.datasource=&ds; vf.callbacks=env_cb; vf.seekable=ND_BOOL(); vf.links=2;
